@@ -3,7 +3,7 @@
 From Coq Require Import String.
 From PX.Lib Require Import Base PyStr Regex.
 From PX.Lib Require Import PyInt.
-From PX.Model Require Import Show Validation Path Segment Syntax Raw Reader Writer.
+From PX.Model Require Import Show Validation Path Segment Syntax Raw Reader Writer Norm.
 From PX.Spec Require C13_dec C14_spec C04_spec C04_nest C01_spec.
 
 Definition unit_validation (args : list str) : str :=
@@ -165,6 +165,13 @@ Definition unit_writer (args : list str) : str :=
   | _ => sl "?args"
   end.
 
+(* ---- normaliser: args = eol flag, fix flag, file content ---- *)
+Definition unit_norm (args : list str) : str :=
+  match args with
+  | [e; f; b] => show_result show_hex (norm_text {| o_eol := str_eqb e (sl "1"); o_fix := str_eqb f (sl "1") |} b)
+  | _ => sl "?args"
+  end.
+
 (* ---- syntax ---- *)
 Definition unit_syntax (args : list str) : str :=
   match args with
@@ -286,6 +293,7 @@ Definition dispatch (unit : str) (args : list str) : str :=
   else if str_eqb unit (sl "raw") then unit_raw args
   else if str_eqb unit (sl "reader") then unit_reader args
   else if str_eqb unit (sl "writer") then unit_writer args
+  else if str_eqb unit (sl "norm") then unit_norm args
   else if str_eqb unit (sl "syntax") then unit_syntax args
   else if str_eqb unit (sl "split_syntax") then unit_split_syntax args
   else if str_eqb unit (sl "pyint") then unit_pyint args
